@@ -87,6 +87,15 @@ Definition init_ok (i : option stmt) : bool :=
 (* init statements of for / switch may also be a Yield (the rewriter hoists them in front) *)
 Definition init_ok2 (i : option stmt) : bool :=
   match i with None => true | Some (SAtom _) | Some (SYield _) => true | _ => false end.
+(* the post statement of a for loop: nothing / an atom, or a Yield provided no `continue` of the body
+   targets this loop (the rewriter appends the post statement to the body callback, so a continue
+   would skip it: finding F1) *)
+Definition post_okb (k : nat) (p : option stmt) (b : list stmt) : bool :=
+  match p with
+  | None | Some (SAtom _) => true
+  | Some (SYield _) => forallb (okb k false true false) b
+  | _ => false
+  end.
 Definition is_if (s : stmt) : bool := match s with SIf _ _ _ _ => true | _ => false end.
 
 (* a case body the proof covers: supported statements that never leave the clause by break
@@ -107,7 +116,7 @@ Fixpoint supp (k : nat) (s : stmt) {struct k} : bool :=
         | EElse b => forallb (supp k) b
         | EElif x => is_if x && supp k x
         end
-    | SFor i c p b => init_ok2 i && init_ok p && forallb (supp k) b
+    | SFor i c p b => init_ok2 i && post_okb k p b && forallb (supp k) b
     | SSwitch i t cs => init_ok2 i && forallb (fun lb => clause_ok (supp k) k (snd lb)) cs
     | _ => false
     end
